@@ -189,11 +189,25 @@ int reb_particle_check_testparticles(struct reb_simulation* const r){
 }
 
 
+// Index of the root box along one dimension. Rounding in (x+boxsize/2)/root_size can put a particle that
+// lies within one ulp of the face between two root boxes on the wrong side of it (e.g. x=-1e-16 and
+// boxsize/2=4). The faces themselves are compared, as reb_tree_particle_is_inside_cell() does.
+static int reb_get_rootbox_index_1d(const double x, const double boxsize, const double root_size, const int N_root){
+	int i = (MIN((int)floor((x + boxsize/2.)/root_size),N_root-1)+N_root)%N_root; // a particle on the upper face belongs to the last root box
+	const double c = -boxsize/2.+root_size*(0.5+(double)i);
+	if (x > c+root_size/2. && i<N_root-1){
+		i++;
+	}else if (x < c-root_size/2. && i>0){
+		i--;
+	}
+	return i;
+}
+
 int reb_get_rootbox_for_particle(const struct reb_simulation* const r, struct reb_particle pt){
 	if (r->root_size==-1) return 0;
-	int i = (MIN((int)floor((pt.x + r->boxsize.x/2.)/r->root_size),r->N_root_x-1)+r->N_root_x)%r->N_root_x; // a particle on the upper face belongs to the last root box
-	int j = (MIN((int)floor((pt.y + r->boxsize.y/2.)/r->root_size),r->N_root_y-1)+r->N_root_y)%r->N_root_y; // a particle on the upper face belongs to the last root box
-	int k = (MIN((int)floor((pt.z + r->boxsize.z/2.)/r->root_size),r->N_root_z-1)+r->N_root_z)%r->N_root_z; // a particle on the upper face belongs to the last root box
+	int i = reb_get_rootbox_index_1d(pt.x, r->boxsize.x, r->root_size, r->N_root_x);
+	int j = reb_get_rootbox_index_1d(pt.y, r->boxsize.y, r->root_size, r->N_root_y);
+	int k = reb_get_rootbox_index_1d(pt.z, r->boxsize.z, r->root_size, r->N_root_z);
 	int index = (k*r->N_root_y+j)*r->N_root_x+i;
 	return index;
 }
